@@ -2,6 +2,7 @@
 import ast
 from ..core import Result
 from ..pm import AnalysisError, unparse
+from ..match import Code
 from ..paths import paths, annotate, callee_names, call_attr
 from ..rat import (Ev, Rat, Sym, Poly, fn_eval, rat_eq, Inconclusive, ONE,
                    ZERO, const_of)
@@ -111,7 +112,7 @@ def list_space(ctx):
                                  'spot data is not laid out [field][wavelength]',
                                  construct='spot data layout'))
     init = P.func('SpotDiagram.__init__')
-    s = unparse(init.node, 3000)
+    s = Code(P, init)
     if 'self._generate_data(self.fields, self.wavelengths' in s:
         res.ok('SpotDiagram generates data over its own lists')
     else:
@@ -242,7 +243,7 @@ def operand_attr(ctx):
                                  f'requested ray', construct=f'operand {name}'))
     f = P.func('RayOperand.rms_spot_size')
     res.saw(f)
-    s = unparse(f.node, 6000)
+    s = Code(P, f)
     checks = [
         ('optic.trace(Hx, Hy, wavelength, num_rays, distribution)' in s,
          'single wavelength traced as requested'),
@@ -330,7 +331,7 @@ def parabasal(ctx):
                 f'the intersection of the two parabasal rays',
                 construct=f'{f.name} intersection law'))
         # the two rays differ in the right pupil coordinate by +-delta
-        s = unparse(f.node, 6000)
+        s = Code(P, f)
         okp = f'{delta_on} = np.tile(np.array([-delta, delta]), ' \
               f'self.num_points)' in s and \
             'Hy = np.repeat(np.linspace(0, 1, self.num_points), 2)' in s and \
@@ -348,7 +349,7 @@ def parabasal(ctx):
                                  f'launched at {delta_on} = -+delta per field',
                                  construct=f'{f.name} ray pairs'))
     g = P.func('FieldCurvature._generate_data')
-    s = unparse(g.node, 3000)
+    s = Code(P, g)
     if 'data.append([tangential, sagittal])' in s and \
             'tangential = self._intersection_parabasal_tangential(wavelength)' \
             in s and \
@@ -455,7 +456,7 @@ def distortion(ctx):
         res.ok('unknown distortion type raises')
     g = P.func('GridDistortion._generate_data')
     res.saw(g)
-    s = unparse(g.node, 8000)
+    s = Code(P, g)
     gchecks = [
         ("delta = np.sqrt((data['xp'] - data['xr']) ** 2 + (data['yp'] - "
          "data['yr']) ** 2)" in s, 'distance between predicted and real'),
@@ -487,7 +488,7 @@ def radii(ctx):
     for cn in ('SpotDiagram', 'EncircledEnergy'):
         f = P.func(cn + '._generate_field_data')
         res.saw(f)
-        s = unparse(f.node, 3000)
+        s = Code(P, f)
         ok = 'self.optic.trace(*field, wavelength, num_rays, distribution)' in s \
             and 'x = self.optic.surface_group.x[-1, :]' in s and \
             'y = self.optic.surface_group.y[-1, :]' in s and \
@@ -502,7 +503,7 @@ def radii(ctx):
                                  construct=f'{cn} field data'))
     f = P.func('SpotDiagram._center_spots')
     res.saw(f)
-    s = unparse(f.node, 3000)
+    s = Code(P, f)
     if 'wave_data[0] -= centroids[i][0]' in s and \
             'wave_data[1] -= centroids[i][1]' in s and \
             'centroids = self.centroid()' in s and \
@@ -516,7 +517,7 @@ def radii(ctx):
                              construct='_center_spots'))
     f = P.func('SpotDiagram.rms_spot_radius')
     res.saw(f)
-    s = unparse(f.node, 3000)
+    s = Code(P, f)
     if 'r2 = wave_data[0] ** 2 + wave_data[1] ** 2' in s and \
             'np.sqrt(np.mean(r2))' in s and '_center_spots' in s:
         res.ok('rms radius = sqrt(mean(dx^2+dy^2)) of centred data')
@@ -526,7 +527,7 @@ def radii(ctx):
                              'about the centroid', construct='rms_spot_radius'))
     f = P.func('SpotDiagram.geometric_spot_radius')
     res.saw(f)
-    s = unparse(f.node, 3000)
+    s = Code(P, f)
     if 'r = np.sqrt(wave_data[0] ** 2 + wave_data[1] ** 2)' in s and \
             'np.max(r)' in s and '_center_spots' in s:
         res.ok('geometric radius = max sqrt(dx^2+dy^2) of centred data')
@@ -537,7 +538,7 @@ def radii(ctx):
                              construct='geometric_spot_radius'))
     f = P.func('SpotDiagram.centroid')
     res.saw(f)
-    s = unparse(f.node, 3000)
+    s = Code(P, f)
     if 'centroid_x = np.mean(field_data[norm_index][0])' in s and \
             'centroid_y = np.mean(field_data[norm_index][1])' in s and \
             'centroid.append((centroid_x, centroid_y))' in s:
@@ -549,7 +550,7 @@ def radii(ctx):
     # ray fan: errors relative to the chief ray (centre sample) of the primary
     f = P.func('RayFan._generate_data')
     res.saw(f)
-    s = unparse(f.node, 9000)
+    s = Code(P, f)
     fchecks = [
         ("distribution='line_x'" in s and "distribution='line_y'" in s,
          'both pupil axes traced'),
